@@ -88,7 +88,25 @@ pub enum Outcome {
     Unspecified,
 }
 
+/// What a crash in the middle of a request may legitimately leave behind (consumed at the first comparison after the
+/// restart).
+#[derive(Clone, Debug)]
+pub enum CrashAllow {
+    Register { u: u32, before: Option<MUser>, after: Option<MUser> },
+    Add {
+        u: u32,
+        d: u32,
+        lo: u32,
+        hi: u32,
+        new_blob: Vec<u8>,
+        new_tsd: u32,
+        new_sig: String,
+        new_penalty: Option<Transaction>,
+    },
+}
+
 pub struct Model {
+    pub crash_allow: Option<CrashAllow>,
     pub cfg: TowerCfg,
     pub uni: Universe,
     pub h: u32,
@@ -109,6 +127,11 @@ pub struct Model {
     pub probes: BTreeMap<&'static str, u64>,
     pub tower_id: Option<teos_common::TowerId>,
     pub first_boot: bool,
+    /// Every block the tower has ever been shown (boot chain + connected blocks).
+    pub ever_shown: BTreeSet<BlockHash>,
+    /// After a (re)start the tower has lost its in-memory list of reorged trackers; if it had already re-announced them
+    /// before going down, it need not do it again at the first block it connects.
+    pub reannounce_optional: bool,
     /// Verdicts the node gave since the tower last finished a block: the tower may rely on them instead of asking again.
     pub recent_verdicts: BTreeMap<Txid, Verdict>,
     pub pk_cache: Vec<Vec<u8>>,
@@ -140,7 +163,10 @@ impl Model {
             }
         }
         Model {
+            crash_allow: None,
             recent_verdicts: BTreeMap::new(),
+            ever_shown: BTreeSet::new(),
+            reannounce_optional: false,
             pk_cache,
             uuid_cache,
             loc_cache,
@@ -210,6 +236,8 @@ impl Model {
         }
         hashes.reverse();
         self.base = height + 1 - hashes.len() as u32;
+        self.ever_shown.extend(hashes.iter().cloned());
+        self.reannounce_optional = !self.first_boot;
         self.shown = hashes;
         self.h = height;
         self.cache_len = 6;
@@ -336,6 +364,9 @@ impl Model {
 
     pub fn compare_db(&mut self, node: &NodeState, db: &DbDump, at: &str, check_confirmed: bool) -> Vec<Violation> {
         let mut out = Vec::new();
+        if let Some(allow) = self.crash_allow.take() {
+            out.extend(self.apply_crash_allowance(node, db, allow, at));
+        }
         if db.fk_violations > 0 {
             out.push(viol("C03", "dangling_rows", format!("{at}: {} foreign-key violations", db.fk_violations)));
         }
@@ -530,6 +561,121 @@ impl Model {
         out
     }
 
+    fn apply_crash_allowance(&mut self, node: &NodeState, db: &DbDump, allow: CrashAllow, at: &str) -> Vec<Violation> {
+        let mut out = vec![];
+        match allow {
+            CrashAllow::Register { u, before, after } => {
+                let pk = self.user_pk(u);
+                let row = db.users.iter().find(|r| r.user_id == pk);
+                let matches = |m: &Option<MUser>| match (m, row) {
+                    (None, None) => true,
+                    (Some(m), Some(r)) => m.available == r.available && m.start == r.start && m.expiry == r.expiry,
+                    _ => false,
+                };
+                if matches(&after) && !matches(&before) {
+                    if let Some(a) = after {
+                        self.users.insert(u, a);
+                    }
+                    self.probe("crash_register_applied");
+                } else if matches(&before) {
+                    self.probe("crash_register_not_applied");
+                } else {
+                    out.push(viol(
+                        "C03",
+                        "interrupted_registration_mixed",
+                        format!("{at}: after a crash inside register(user {u}) the user row is neither the old nor the new subscription: {row:?}"),
+                    ));
+                    if let (Some(r), Some(mut a)) = (row, after.or(before)) {
+                        a.available = r.available;
+                        a.start = r.start;
+                        a.expiry = r.expiry;
+                        a.tainted = true;
+                        self.users.insert(u, a);
+                    }
+                }
+            }
+            CrashAllow::Add { u, d, lo, hi, new_blob, new_tsd, new_sig, new_penalty } => {
+                let pk = self.user_pk(u);
+                let uuid = self.uuid(u, d);
+                let before = self.users.get(&u).map(|m| m.available).unwrap_or(0);
+                let row = db.appointments.iter().find(|a| a.uuid == uuid);
+                let has_tracker = db.trackers.iter().any(|t| t.uuid == uuid);
+                let applied = matches!(row, Some(a) if a.blob == new_blob && a.sig == new_sig && a.tsd == new_tsd);
+                if let Some(r) = db.users.iter().find(|r| r.user_id == pk) {
+                    if !applied && r.available > before {
+                        out.push(viol(
+                            "C03",
+                            "crash_grants_slots_on_interrupted_shrinking_update",
+                            format!(
+                                "{at}: crash inside add(user {u}, dispute {d}) (replacement by a smaller blob): the stored appointment is still the old one but available slots went from {before} to {} -- the crash granted slots",
+                                r.available
+                            ),
+                        ));
+                    } else if r.available < lo || r.available > hi {
+                        out.push(viol(
+                            "C03",
+                            "crash_slot_bounds",
+                            format!(
+                                "{at}: crash inside add(user {u}, dispute {d}): available slots are {} but must stay within [{lo},{hi}] (at most the in-flight request is lost, nothing is granted)",
+                                r.available
+                            ),
+                        ));
+                    }
+                    if let Some(m) = self.users.get_mut(&u) {
+                        m.available = r.available;
+                    }
+                }
+                match row {
+                    Some(a) if applied => {
+                        // the new version made it to disk
+                        self.probe("crash_add_applied");
+                        let conf = new_penalty.as_ref().and_then(|p| self.height_in_shown(node, &p.compute_txid()));
+                        self.recs.insert(
+                            (u, d),
+                            Rec {
+                                u,
+                                d,
+                                blob: new_blob,
+                                tsd: new_tsd,
+                                sig: new_sig,
+                                start_block: a.start_block,
+                                state: if has_tracker { RecState::Responded } else { RecState::Watched },
+                                penalty: new_penalty,
+                                unspecified: false,
+                                adopt_once: false,
+                                conf: if has_tracker { conf } else { None },
+                                needs_reannounce: false,
+                                blocks_since_send: self.h,
+                                disconnect_seen: false,
+                            },
+                        );
+                    }
+                    _ => {
+                        self.probe("crash_add_not_applied");
+                    }
+                }
+                // Whatever the in-flight request lost is gone for good: fold it into the forfeited account.
+                if let Some(m) = self.users.get_mut(&u) {
+                    let held: u64 = db
+                        .appointments
+                        .iter()
+                        .filter(|a| a.user_id == pk)
+                        .map(|a| slots_for(a.blob.len()) as u64)
+                        .sum();
+                    let rhs = m.available as u64 + held;
+                    if m.granted >= rhs {
+                        m.forfeited = m.granted - rhs;
+                    } else {
+                        // a gift (reported above): keep the books balanced from here on
+                        m.granted = rhs;
+                        m.forfeited = 0;
+                    }
+                }
+            }
+        }
+        out
+    }
+
     /// C07 conservation law, evaluated on observed values only.
     pub fn check_conservation(&mut self, db: &DbDump, at: &str) -> Vec<Violation> {
         let mut out = vec![];
@@ -627,6 +773,7 @@ impl Model {
             ));
         }
         self.shown.push(hash);
+        self.ever_shown.insert(hash);
         self.h = height;
         self.index_prev_len = self.index_len;
         self.cache_len = (self.cache_len + 1).min(6);
@@ -769,6 +916,9 @@ impl Model {
                 let vd = first_send_verdict(rpcs, &dtxid);
                 let vp = first_send_verdict(rpcs, &ptxid);
                 match vd {
+                    None if self.reannounce_optional && node.has_tx(&dtxid) && node.has_tx(&ptxid) => {
+                        self.probe("reannounce_already_done_before_restart");
+                    }
                     None => out.push(viol(
                         "C04",
                         "dispute_not_reannounced",
@@ -869,6 +1019,7 @@ impl Model {
         }
 
         self.recent_verdicts.clear();
+        self.reannounce_optional = false;
         if let Some(db) = db {
             let at = format!("after connecting height {height}");
             out.extend(self.compare_db(node, db, &at, true));
